@@ -308,7 +308,14 @@ def r5(ck, F):
         else:
             ck.bad("C01.R5", "callsite interest = Interest::and-fold over all dispatchers; none -> never", where(rci.raw["sp"]), why, fn=rci.path)
         # the only element dropped is a dead registrar; each live one is asked register_callsite(meta of this callsite)
-        c0 = F.body(CS + "rebuild_callsite_interest::{closure#0}")
+        # the closure handed to filter_map (in rebuild_callsite_interest itself or in a helper inlined into it)
+        c0 = None
+        for bb, t in rci.calls():
+            if t["callee"].get("method") == "filter_map" and len(t["argv"]) == 2:
+                o = rci.origin(t["argv"][1])
+                cd = o[1].get("agg", {}).get("closure") if o[0] == "agg" else (o[1].get("closure") if o[0] == "const" else None)
+                c0 = F.body(cd) if cd else None
+        c0 = c0 or F.body(CS + "rebuild_callsite_interest::{closure#0}")
         ok = c0 is not None
         if ok:
             ps = [p for p in PathEval(c0).run() if p.end == "return"]
